@@ -114,6 +114,8 @@ namespace vh
             std::unique_ptr<fg_t> fg;
             xt::xarray<double> z;              // last argument (kept alive)
             const xt::xarray<double>* out = nullptr;  // last returned reference
+            // stand-alone basin graphs bound to this graph (method -> object), kept across updates
+            std::map<int, std::unique_ptr<fs::basin_graph<impl_t>>> bgs;
         };
 
         std::unique_ptr<G> grid;
